@@ -26,6 +26,8 @@ type c10Case struct {
 	DefaultRoute bool     `json:"default_route"`
 	Split        []int    `json:"split,omitempty"`
 	GateDelayMs  int      `json:"gate_delay_ms"`
+	UnbindBody   []byte   `json:"unbind_body,omitempty"`   // content octets of the Unbind (normally none)
+	UnbindPanics bool     `json:"unbind_panics,omitempty"` // the unbind handler panics (recovery is enabled)
 }
 
 func c10Exec(c c10Case, st *lab.Stats) *lab.Fail {
@@ -48,6 +50,11 @@ func c10Exec(c c10Case, st *lab.Stats) *lab.Fail {
 				mu.Lock()
 				unbindEntered++
 				mu.Unlock()
+				if c.UnbindPanics && label == "unbind" {
+					log.add(event{Kind: "exit", ConnID: r.ConnectionID(), MsgID: id, ReqID: r.ID, Label: label})
+					var m map[string]int
+					m["boom"] = 1 // nil map write
+				}
 			}
 			if blockedSet[id] && label != "unbind" {
 				g.wait(20 * time.Second)
@@ -93,7 +100,11 @@ func c10Exec(c c10Case, st *lab.Stats) *lab.Fail {
 		buf = append(buf, simpleReq(q.Op, int64(i+1)).Bytes()...)
 	}
 	unbindID := int64(len(c.Pre) + 1)
-	buf = append(buf, simpleReq("unbind", unbindID).Bytes()...)
+	ub := simpleReq("unbind", unbindID)
+	if len(c.UnbindBody) > 0 {
+		ub = ReqSpec{Req: wire.Req{Kind: "raw", MsgID: unbindID, RawTag: wire.AppUnbindRequest, RawContent: c.UnbindBody}}
+	}
+	buf = append(buf, ub.Bytes()...)
 	postIDs := map[int64]bool{}
 	for i, q := range c.Post {
 		id := unbindID + 1 + int64(i)
@@ -165,7 +176,9 @@ func c10Exec(c c10Case, st *lab.Stats) *lab.Fail {
 	if c.UnbindRoute {
 		want = 1
 	}
-	if ue != want {
+	if len(c.UnbindBody) > 0 && ue <= want {
+		// an Unbind that carries content octets is not well formed: whether its handler runs is not demanded
+	} else if ue != want {
 		return lab.Failf("unbind-handler-count", "unbind handler ran %d times (unbind route registered: %v, default route: %v)", ue, c.UnbindRoute, c.DefaultRoute)
 	}
 	// the close came only after every pre handler returned
@@ -191,7 +204,7 @@ func TestC10(t *testing.T) {
 	ops := []string{"bind", "search", "modify", "add", "delete", "extended"}
 	lab.Prop[c10Case]{
 		ID: "C10", Part: "unbind",
-		Rule: "rapid: pipelines <0..8 requests> Unbind <0..8 requests, possibly further Unbinds>, written in one write() or split at generated byte offsets; unbind route absent/present, default route absent/present; any subset of the earlier handlers blocked on a gate that opens 0..40 ms later; oracle = unbind handler exactly once iff registered, no handler entry and no response for anything after the Unbind, no response to the Unbind, every earlier request answered once, connection closed and only after the blocked handlers returned (global sequence numbers); non-trivial = >= 1 request pipelined behind the Unbind in the same write(); distinct by hash",
+		Rule: "rapid: pipelines <0..8 requests> Unbind <0..8 requests, possibly further Unbinds>, written in one write() or split at generated byte offsets; unbind route absent/present (its handler may panic, recovery enabled), default route absent/present; the Unbind occasionally carries (ill-formed) content octets; any subset of the earlier handlers blocked on a gate that opens 0..40 ms later; oracle = unbind handler exactly once iff registered, no handler entry and no response for anything after the Unbind, no response to the Unbind, every earlier request answered once, connection closed and only after the blocked handlers returned (global sequence numbers); non-trivial = >= 1 request pipelined behind the Unbind in the same write(); distinct by hash",
 		Gen: func(t *rapid.T) c10Case {
 			c := c10Case{
 				UnbindRoute:  rapid.Bool().Draw(t, "unbindroute"),
@@ -206,6 +219,10 @@ func TestC10(t *testing.T) {
 			for i := 0; i < npo; i++ {
 				c.Post = append(c.Post, c10Req{Op: rapid.SampledFrom(append([]string{"unbind", "starttls"}, ops...)).Draw(t, "postop")})
 			}
+			if rapid.IntRange(0, 5).Draw(t, "unbindbody") == 0 {
+				c.UnbindBody = rapid.SampledFrom([][]byte{{0}, {5, 0}, {0, 0, 0}}).Draw(t, "body")
+			}
+			c.UnbindPanics = c.UnbindRoute && rapid.IntRange(0, 4).Draw(t, "unbindpanics") == 0
 			if rapid.IntRange(0, 2).Draw(t, "split") == 0 {
 				c.Split = rapid.SliceOfN(rapid.IntRange(1, 999), 1, 4).Draw(t, "cuts")
 			}
